@@ -94,7 +94,12 @@ def check(tier, seed):
     n = 600 if tier == "quick" else 15000
     prof = apigen.profile(n_defs=(5, 12), n_listen=(2, 5), samples=0.4, max_defer=1, unlisten=0.0, obs=0.0,
                           weights=dict(defer=1.5, switchs=1.5, switchc=0.7, lift2=2, accum=1.5, hold=3, merge=5, once=1, sloop=0.5, cloop=0.5, router=0.5))
-    base = [apigen.generate(rng, prof) for _ in range(n)]
+    # one or two sinks feeding selectors and candidate cells at different depths: every send switches and updates
+    # the old and the new inner cell at once
+    fan = apigen.profile(n_defs=(8, 16), n_listen=(2, 4), samples=0.5, unlisten=0.0, obs=0.0, n_txn=(4, 10),
+                         weights=dict(ssink=0.6, ssinkc=0, csink=0.3, const=0, never=0, map=7, filter=1.5, hold=6, switchc=4, switchs=1.5, mapc=1.5, merge=1,
+                                      snapshot=1, lift2=0.7, accum=0.3, collect=0, once=0, gate=0.3, value=0.5, updates=1, orelse=0.5, snapshotn=0, liftn=0))
+    base = [apigen.generate(rng, fan if k % 3 == 2 else prof) for k in range(n)]
     var = [variant(rng, b) for b in base]
     ra, _, _ = c_api.api_run(base)
     rb, _, _ = c_api.api_run(var)
